@@ -123,6 +123,7 @@ void Exec::do_op() {
 	else if (k == "foreign") op_foreign(c);
 	else if (k == "wbasis") op_wbasis(c);
 	else if (k == "rbasis") op_rbasis(c);
+	else if (k == "fbasis") op_fbasis(c);
 	else if (k == "lu") op_lu(c);
 	else if (k == "esolver") op_esolver(c);
 	else if (k == "qinvalid") op_query_invalid(c);
